@@ -2,7 +2,7 @@ HOOKS = {
     "guard": "roaring_verif",
     "enable": "RUSTFLAGS=\"--cfg roaring_verif\" cargo build (done by bin/check for the harness build of /repo/roaring)",
     "baseline_off_cmd": "cd /repo && cargo test --workspace --no-fail-fast --offline",
-    "source_commits": [],
+    "source_commits": ["df2eeb8"],
     "add_only": True,
 }
 NOT_YET = {}
